@@ -108,7 +108,7 @@ def bad_volume(rng, cls, mx):
         "nan": math.nan,
         "inf": math.inf,
         "huge": rng.choice([7158278.01, 7158279, 1e9, 1e300]),
-        "over_max": rng.choice([mx + 0.01, mx + 1, mx * 2, math.nextafter(float(mx), math.inf)]),
+        "over_max": rng.choice([mx + 0.01, mx + 1, mx * 2, math.nextafter(float(mx), math.inf)]) if mx else rng.choice([0.01, 1, 250.0]),
         "none": None,
         "text": "abc",
     }[cls]
@@ -130,6 +130,8 @@ def gen_case(rng, tier, index):
     entries = [e for e, _ in ENTRY_WEIGHTS]
     entry = rng.choices(entries, weights=[w for _, w in ENTRY_WEIGHTS])[0]
     mx = rng.choice([950, 950, 200, 1000, 333.3, 50])
+    if entry in ("aspirate_well", "dispense_well", "reagent_distribution") and rng.random() < 0.04:
+        mx = rng.choice([0, 0.0])  # a worklist that may not pipette at all: every positive volume is oversized
     wl = {"max_volume": mx, "diti_mode": rng.random() < 0.3, "auto_split": True,
           "cls": rng.choice(["base", "base", "base", "evo", "fluent", "deprecated", "deprecated_positional"])}
     case = {"entry": entry, "wl": wl, "faults": []}
